@@ -120,11 +120,11 @@ Section Conv.
       | ka :: t => bind (set_field kw ka) (fun f => bind (set_fields kw t) (fun r => OK (f :: r)))
       end.
 
-    (** Aggregate._apply_args: membership by lower-cased class name; any str is accepted as it is *)
+    (** Aggregate._apply_args: membership by lower-cased class name; anything that is not an Aggregate is refused
+        (list elements belong to ElementList, which overrides the method) *)
     Definition apply_arg_plain (c : cinfo) (a : kwval) : result member :=
       match a with
       | KInst i => if mem (lower (icls i)) (listaggregates c) then OK (MAgg i) else Err Reject
-      | KText s => OK (MStr s)
       | _ => Err Reject
       end.
     (** ElementList._apply_args: converter.convert(member) *)
